@@ -53,6 +53,78 @@ type Store struct {
 	// own maps handed out in Shared mode
 	shared     numscript.Balances
 	sharedMeta numscript.AccountsMetadata
+	// every answer handed out in the per-query modes, with its content at that moment: the
+	// maps obtained from the store belong to the store (or its client), not to the interpreter
+	handedBal  []handedBalances
+	handedMeta []handedMetadata
+}
+
+type handedBalances struct {
+	ref  numscript.Balances
+	copy map[string]map[string]string
+}
+
+type handedMetadata struct {
+	ref  numscript.AccountsMetadata
+	copy map[string]map[string]string
+}
+
+func (s *Store) keepBalances(out numscript.Balances) {
+	c := map[string]map[string]string{}
+	for a, m := range out {
+		c[a] = map[string]string{}
+		for k, v := range m {
+			c[a][k] = v.String()
+		}
+	}
+	s.mu.Lock()
+	s.handedBal = append(s.handedBal, handedBalances{ref: out, copy: c})
+	s.mu.Unlock()
+}
+
+func (s *Store) keepMetadata(out numscript.AccountsMetadata) {
+	c := map[string]map[string]string{}
+	for a, m := range out {
+		c[a] = map[string]string{}
+		for k, v := range m {
+			c[a][k] = v
+		}
+	}
+	s.mu.Lock()
+	s.handedMeta = append(s.handedMeta, handedMetadata{ref: out, copy: c})
+	s.mu.Unlock()
+}
+
+// HandedOutIntact reports whether every answer this store gave (per-query modes) still has
+// the content it had when it was returned. Call it when no execution is in flight.
+func (s *Store) HandedOutIntact() (string, bool) {
+	s.mu.Lock()
+	defer s.mu.Unlock()
+	for i, h := range s.handedBal {
+		now := map[string]map[string]string{}
+		for a, m := range h.ref {
+			now[a] = map[string]string{}
+			for k, v := range m {
+				now[a][k] = v.String()
+			}
+		}
+		if fmt.Sprint(now) != fmt.Sprint(h.copy) {
+			return fmt.Sprintf("balances answer #%d was %v when returned and is %v now", i, h.copy, now), false
+		}
+	}
+	for i, h := range s.handedMeta {
+		now := map[string]map[string]string{}
+		for a, m := range h.ref {
+			now[a] = map[string]string{}
+			for k, v := range m {
+				now[a][k] = v
+			}
+		}
+		if fmt.Sprint(now) != fmt.Sprint(h.copy) {
+			return fmt.Sprintf("metadata answer #%d was %v when returned and is %v now", i, h.copy, now), false
+		}
+	}
+	return "", true
 }
 
 func New(mode string, c Content) *Store {
@@ -141,6 +213,7 @@ func (s *Store) GetBalances(_ context.Context, q numscript.BalanceQuery) (numscr
 	if s.Mode == NilMaps && len(out) == 0 {
 		return nil, nil
 	}
+	s.keepBalances(out)
 	return out, nil
 }
 
@@ -174,6 +247,7 @@ func (s *Store) GetAccountsMetadata(_ context.Context, q numscript.MetadataQuery
 	if s.Mode == NilMaps && len(out) == 0 {
 		return nil, nil
 	}
+	s.keepMetadata(out)
 	return out, nil
 }
 
